@@ -25,7 +25,7 @@ DEFAULTS = {
     'memLimitTest': 'isNotNone', 'fileLimitTest': 'isNotNone', 'dayCountKind': 'calendar', 'dayCountPlus': 1,
     'rateAlwaysCmp': 'ge', 'drawKeepCmp': 'le', 'fileAboveCmp': 'gt', 'windowStartCmp': 'le', 'windowEndCmp': 'le',
     'opOutputAlias': '_tape_recorder_operation', 'aboveLimitContent': 'above interception limit', 'defaultFileLimit': 500,
-    's3RateAlwaysCmp': 'ge', 's3DrawKeepCmp': 'le',
+    's3RateAlwaysCmp': 'ge', 's3DrawKeepCmp': 'le', 'disableDiscards': True, 'fileStemSplitext': True,
     's3FullKey': 'tape_recorder_recordings/{key_prefix}full/{id}', 's3MetadataKey': 'tape_recorder_recordings/{key_prefix}metadata/{id}',
 }
 
@@ -245,6 +245,37 @@ def extract(repo):
                 sdraw = FLIP[c[1]]
     except Exception:
         pass
+    # -- tape_recorder.py `disable_recording`: does it discard the recording in flight? (F15) -------------------------
+    dd = None
+    try:
+        fn = find_func(tr, 'disable_recording')
+        sets_false = any(isinstance(n, ast.Assign) and any(is_attr(t, 'recording_enabled') for t in n.targets)
+                         and isinstance(n.value, ast.Constant) and n.value.value is False for n in ast.walk(fn))
+        calls = [n.func.attr for n in ast.walk(fn) if isinstance(n, ast.Call) and isinstance(n.func, ast.Attribute)
+                 and isinstance(n.func.value, ast.Name) and n.func.value.id == 'self']
+        if sets_false:
+            dd = 'discard_recording' in calls
+    except Exception:
+        pass
+    put('disableDiscards', dd)
+    # -- file_based_tape_cassette.py `iter_recording_ids`: how the recording id is cut out of a listed file name (F14) --
+    fs = None
+    try:
+        fn = find_func(parse(repo, 'playback/tape_cassettes/file_based/file_based_tape_cassette.py'), 'iter_recording_ids')
+        for n in ast.walk(fn):
+            if isinstance(n, ast.Assign) and len(n.targets) == 1 and is_name(n.targets[0], 'recording_id') \
+                    and isinstance(n.value, ast.Subscript) and isinstance(n.value.value, ast.Call):
+                call = n.value.value
+                idx = n.value.slice
+                zero = isinstance(idx, ast.Constant) and idx.value == 0
+                if zero and is_attr(call.func, 'splitext') and len(call.args) == 1 and is_name(call.args[0], 'file_name'):
+                    fs = True
+                elif zero and is_attr(call.func, 'split') and is_name(call.func.value, 'file_name') and len(call.args) == 1 \
+                        and isinstance(call.args[0], ast.Constant) and call.args[0].value == '.':
+                    fs = False
+    except Exception:
+        pass
+    put('fileStemSplitext', fs)
     put('s3RateAlwaysCmp', srate)
     put('s3DrawKeepCmp', sdraw)
     put('s3FullKey', fk if isinstance(fk, str) else None)
@@ -306,6 +337,10 @@ def defaultFileLimit : Nat := %d
 /-- s3_tape_cassette.py `_should_sample`: `ratio <op> 1` stores without a draw, else `self._random.random() <op> ratio` -/
 def s3RateAlwaysCmp : Cmp := .%s
 def s3DrawKeepCmp : Cmp := .%s
+/-- tape_recorder.py `disable_recording`: after switching off it calls `self.discard_recording()` (F15) -/
+def disableDiscards : Bool := %s
+/-- file_based_tape_cassette.py `iter_recording_ids`: `os.path.splitext(file_name)[0]` (true, F14) or `file_name.split('.')[0]` -/
+def fileStemSplitext : Bool := %s
 /-- `S3TapeCassette.FULL_KEY` / `METADATA_KEY` -/
 def s3FullKey : String := %s
 def s3MetadataKey : String := %s
@@ -316,6 +351,7 @@ end PlaybackModel.Source
        lean_str(atoms['opOutputAlias']), lean_str(atoms['aboveLimitContent']),
        ', '.join(str(b) for b in atoms['aboveLimitContent'].encode('utf-8')), atoms['defaultFileLimit'],
        atoms['s3RateAlwaysCmp'], atoms['s3DrawKeepCmp'],
+       'true' if atoms['disableDiscards'] else 'false', 'true' if atoms['fileStemSplitext'] else 'false',
        lean_str(atoms['s3FullKey']), lean_str(atoms['s3MetadataKey']))
 
 
